@@ -95,9 +95,12 @@ Proof.
     + replace (p + i - p) with i by lia. apply Z.mod_small. apply enc_byte_range.
     + apply Z.mod_small. assumption.
     + apply Z.mod_small. assumption.
-  - destruct s; try discriminate; reflexivity.
-  - cbn. lia.
-  - cbn. lia.
+  - destruct s; try discriminate; cbn [load_op dec].
+    + change (X0 "mload" [p] t v0) with (mkO [dec32 (fun i => v0 Mem (p + i))] zero_store nomask false). reflexivity.
+    + change (X0 "sload" [p] t v0) with (mkO [v0 Sto (p + 0)] zero_store nomask false). reflexivity.
+    + change (X0 "tload" [p] t v0) with (mkO [v0 Tra (p + 0)] zero_store nomask false). reflexivity.
+  - change (asz_of ex_le_before i) with 0. pose proof W_pos. lia.
+  - change (asz_of ex_le_before i) with 0. change (asz_of ex_le_before j) with 0. lia.
 Qed.
 
 (* hence the behaviours of ex_le_before and ex_le_after coincide under X0, for every input state *)
